@@ -92,9 +92,15 @@ class World(object):
             # opposite order to the file's columns, channels by name
             self.mef_order = [3, 2]
             mefv = [[10.0 * ch + k for k in range(3)] for ch in self.mef_order]
+            mefv[0][1] = None            # the first-listed channel's middle bead has no manufacturer value; the other channel's has
+            own = {self.mef_order[0]: [mefv[0][0], mefv[0][2]], self.mef_order[1]: list(mefv[1])}
 
             def fit(fl_rfi, fl_mef):
+                # the stub 'fit' hands out the channel's standard curve - if it was given exactly that channel's own known
+                # values (a channel's curve is made from its own beads, whatever the other channels left out)
                 ch = int(fl_mef[0] // 10)
+                if [float(v) for v in fl_mef] != own[ch] or len(fl_rfi) != len(fl_mef):
+                    return (lambda x: 0.0 * x - 1.0), (lambda x: 0.0 * x - 1.0), np.array([1.0]), 'stub', ['p']
                 return curve(ch), curve(ch), np.array([1.0]), 'stub', ['p']
             names_arg = [NAMES[ch - 1] for ch in self.mef_order]
             self.to_mef = FlowCal.mef.get_transform_fxn(
@@ -259,8 +265,8 @@ def compare(W, o, st_cols, st_rows, pid=None):
         #  property's own steps meet whatever state the queries left behind)
         if pid in (None, 'C04') and by_name != meta + ([float(v) for v in rng],):
             bad.append(('name', 'column %d: asked by name %r the metadata are %r, by position %r' % (j, nm, by_name, meta)))
-    if bad:
-        return bad
+    if bad and not (pid == 'C19' and all(b[0] == 'range' for b in bad)):
+        return bad          # (limits that do not follow the data speak against C07; what they do to the bins against C19)
     if pid == 'C12' and len(st_rows) >= 1:
         ev_before = np.asarray(o.view(np.ndarray)).tobytes()
         # statistics of the sample in this state = their definitions on the recorded events present, by name and position
@@ -295,7 +301,7 @@ def compare(W, o, st_cols, st_rows, pid=None):
                 for scale in ('linear', 'log') + (('logicle',) if len(st_rows) == 6 else ()):   # logicle W depends on the events present
                     got = np.asarray(o.hist_bins(j, scale=scale)).tobytes()
                     if got != W.ref_bins[(ch, u, scale)]:
-                        return [('bins', '%s bins of column %d (%s, units %d) differ from those of a pristine sample in the same units' %
+                        return bad + [('bins', '%s bins of column %d (%s, units %d) differ from those of a pristine sample in the same units' %
                                  (scale, j, NAMES[ch - 1], u))]
     return bad
 
